@@ -260,7 +260,7 @@ func (s *SpecValidator) validateDuplicatePropertyNames() *Result {
 		}
 
 		knowns := make(map[string]struct{})
-		dups, rep := s.validateSchemaPropertyNames(k, sch, knowns)
+		dups, rep := s.validateSchemaPropertyNames(k, sch, knowns, make(map[string]struct{}))
 		if rep != nil && (rep.HasErrors() || rep.HasWarnings()) {
 			res.Merge(rep)
 		}
@@ -295,7 +295,7 @@ func (s *SpecValidator) resolveRef(ref *spec.Ref) (*spec.Schema, error) {
 	return spec.ResolveRef(s.spec.Spec(), ref)
 }
 
-func (s *SpecValidator) validateSchemaPropertyNames(nm string, sch spec.Schema, knowns map[string]struct{}) ([]dupProp, *Result) {
+func (s *SpecValidator) validateSchemaPropertyNames(nm string, sch spec.Schema, knowns, visitedRefs map[string]struct{}) ([]dupProp, *Result) {
 	var dups []dupProp
 
 	schn := nm
@@ -310,6 +310,13 @@ func (s *SpecValidator) validateSchemaPropertyNames(nm string, sch spec.Schema, 
 		}
 		seenRefs[schc.Ref.String()] = struct{}{}
 
+		if _, visited := visitedRefs[schc.Ref.String()]; visited {
+			// an ancestor reached a second time through another branch (diamond inheritance)
+			// contributes the same properties again: these are not duplicates
+			return dups, res
+		}
+		visitedRefs[schc.Ref.String()] = struct{}{}
+
 		// gather property names
 		reso, err := s.resolveRef(&schc.Ref)
 		if err != nil {
@@ -322,7 +329,7 @@ func (s *SpecValidator) validateSchemaPropertyNames(nm string, sch spec.Schema, 
 
 	if len(schc.AllOf) > 0 {
 		for _, chld := range schc.AllOf {
-			dup, rep := s.validateSchemaPropertyNames(schn, chld, knowns)
+			dup, rep := s.validateSchemaPropertyNames(schn, chld, knowns, visitedRefs)
 			if rep != nil && (rep.HasErrors() || rep.HasWarnings()) {
 				res.Merge(rep)
 			}
@@ -353,6 +360,7 @@ func (s *SpecValidator) validateCircularAncestry(nm string, sch spec.Schema, kno
 
 	schn := nm
 	schc := &sch
+	isRef := sch.Ref.String() != ""
 
 	seenRefs := make(map[string]struct{})
 	for schc.Ref.String() != "" {
@@ -372,15 +380,14 @@ func (s *SpecValidator) validateCircularAncestry(nm string, sch spec.Schema, kno
 		schn = sch.Ref.String()
 	}
 
-	if schn != nm && schn != "" {
+	// knowns holds the ancestors on the path from the definition down to here: meeting one of them again
+	// is a cycle, whereas an ancestor shared by two branches (diamond inheritance) is not.
+	if isRef && schn != "" {
 		if _, ok := knowns[schn]; ok {
-			ancs = append(ancs, schn)
+			return append(ancs, schn), res
 		}
 		knowns[schn] = struct{}{}
-
-		if len(ancs) > 0 {
-			return ancs, res
-		}
+		defer delete(knowns, schn)
 	}
 
 	if len(schc.AllOf) > 0 {
